@@ -293,8 +293,17 @@ class Mitm:
 
     # -- installation --------------------------------------------------
     def install(self, loop):
-        orig = loop.create_connection
         mitm = self
+        if hasattr(loop.net, 'on_connect'):
+            # called before either connection_made: nothing written yet
+            def on_connect(ctr, str_):
+                if mitm.ctr is None:
+                    mitm.ctr, mitm.str_ = ctr, str_
+                    ctr.filter = mitm.filter
+                    str_.filter = mitm.filter
+            loop.net.on_connect = on_connect
+            return
+        orig = loop.create_connection
 
         async def create_connection(factory, host=None, port=None, **kw):
             tr, proto = await orig(factory, host, port, **kw)
